@@ -231,7 +231,7 @@ func c10FieldToken(c *Ctx) {
 		c.r.undecided(rule, "<anchor>", "the token struct sent by the lexer, or its kind field (a field of an enumeration type), cannot be identified")
 		return
 	}
-	isSend := func(i ssa.Instruction) bool { _, ok := i.(*ssa.Send); return ok }
+	isSend := func(i ssa.Instruction) bool { return len(sendsOf(i)) > 0 } // a send statement or the send case of a select
 	sends := func(f *ssa.Function) bool { return c.fc.mayContain(f, isSend, 3) }
 	isLexMethod := func(f *ssa.Function) bool {
 		if f == nil || f.Blocks == nil || f.Signature.Recv() == nil {
